@@ -468,6 +468,7 @@ def annotate(
     result = 0
     for path in paths:
         binary = is_binary(str(path))
+        created_dot_license = False
         if binary or is_uncommentable(path) or force_dot_license:
             new_path = _determine_license_suffix_path(path)
             if binary:
@@ -478,8 +479,9 @@ def annotate(
                     ).format(path=path, new_path=new_path)
                 )
             path = Path(new_path)
+            created_dot_license = not path.exists()
             path.touch()
-        result += add_header_to_file(
+        file_result = add_header_to_file(
             path=path,
             reuse_info=reuse_info,
             template=template,
@@ -493,5 +495,10 @@ def annotate(
             replace=not no_replace,
             out=sys.stdout,
         )
+        if file_result and created_dot_license:
+            # Do not leave behind the empty .license file of a failed
+            # annotation; it would shadow the file itself.
+            path.unlink(missing_ok=True)
+        result += file_result
 
     sys.exit(min(result, 1))
